@@ -391,6 +391,19 @@ def run(ctx):
                          " (report \"%s\" \"copy2-independent\" (fn [] (drv c2)))\n (report \"%s\" \"orig\" (fn [] (drv orig)))\n (report \"%s\" \"copy\" (fn [] (drv c1))))" %
                          (setup % p, driver % p, bid, bid, bid))
             exp.append((bid, name, setup % p, driver % p))
+        # closures marshalled while their environment is still on the creator's stack, with the captured slots at various register numbers
+        for ci in range(4):
+            npad = rng.choice([0, 5, 28, 29, 30, 31, 32, 33, 40, 62, 63, 64, 65, 100, 130])
+            a, b = rng.choice([0, 1, 7, -5]), rng.choice([1, 2, 5])
+            pads = " ".join("(def p%d %d)" % (i, i) for i in range(npad))
+            usep = "(+ p0 p%d)" % (npad - 1) if npad else "0"
+            oid = "s%d" % ci
+            setup = ("(var inside nil) (var inside2 nil) (defn mk [] %s (var n %d) (var m %d) (def pair [(fn bump [] (+= m 1) (++ n)) (fn peek [] [n m %s])]) "
+                     "(set inside (rt-dict pair)) (set inside2 (rt-dict pair)) pair) (def orig (mk))" % (pads, a, b, usep))
+            drv = "(fn [o] (string/format \"%j\" [((o 0)) ((o 0)) ((o 1)) ((o 0)) ((o 1))]))"
+            lines.append("(do %s\n (def drv %s)\n (report \"%s\" \"copy2-independent\" (fn [] (drv inside2)))\n (report \"%s\" \"orig\" (fn [] (drv orig)))\n"
+                         " (report \"%s\" \"copy\" (fn [] (drv inside))))" % (setup, drv, oid, oid, oid))
+            exp.append((oid, "onstack-env-pads%s" % ("<32" if npad < 29 else ">=32"), setup, drv))
         # asm(disasm f)
         for ci in range(8):
             p = dict(a=rng.choice([0, 1, 3, 9]), b=rng.choice([1, 2, 5]))
